@@ -401,6 +401,27 @@ def run(pid, tier):
         p = V.save_replay(pid, 'case-%d.txt' % rec['case'], '\n'.join(rec['lines']) + '\n# ' + rec['why'] + '\n')
         vio_out.append(('%s (suite %s, case %d, %s line %d)' % (rec['why'], rec['suite'], rec['case'],
                                                               os.path.basename(rec['trace']), rec['line']), p))
+    nws = 0
+    if pid == 'C01':
+        # the write side of the WebSocket transport: a real server session (drv_stream, wr=1) answers requests whose payload - echoed in the response - makes the
+        # responses 100..140, 1000 and 1400 bytes long: every frame the library writes is judged by Stream!WsWritten (minimal length form at the 125/126 switch)
+        import stream as S
+        wcases, wid = [], 300000
+        for lens in ([n for n in range(96, 137)], [0, 1, 121, 122, 123, 996, 1396], [122, 122, 122], [121, 123, 122, 0]):
+            for chunks in ([], [1] * 40):
+                frames = [S.ws_frame(S.enc_ws(0xe1, b'', [(2, b'\x04\x80')]), rnd)]
+                for k, n in enumerate(lens):
+                    frames.append(S.ws_frame(S.enc_ws(3, bytes([k & 255]), [(11, b'a')], bytes((i * 7 + n) & 255 for i in range(n))), rnd))
+                    if k % 5 == 4:
+                        frames.append(S.ws_frame(S.enc_ws(0xe2, bytes([k & 255])), rnd))          # a Ping in between: the Pong is a frame too
+                wid += 1
+                wcases.append((wid, ['X id=%d max=0 edge=0 ws=1 http=%d role=0 hostile=0 wr=1' % (wid, len(S.HTTP_UPGRADE)),
+                                     'S ' + (S.HTTP_UPGRADE + b''.join(frames)).hex(), 'C ' + ' '.join(str(c) for c in chunks), 'E']))
+        wout = os.path.join(out, 'wswrite')
+        os.makedirs(wout, exist_ok=True)
+        sdrv = V.link('drv_stream', ['drv_stream.c', 'simnet.c'], V.SIM_WRAPS + ['coap_socket_read', 'coap_socket_write'])
+        wvio, nws, _k, _r = V.drive_and_validate(pid, sdrv, wcases, wout, 'Trace_Stream', xss='512m', xmx='3g', nfiles=4)
+        vio_out += [('WebSocket write side: ' + t, p_) for (t, p_) in wvio]
     infra = [n for n in notes if n['why'].startswith('HARNESS')]
     if infra:
         raise V.Infra('harness/model disagreement that is not a verdict: %s' % infra[:3])
@@ -411,7 +432,7 @@ def run(pid, tier):
         states=mcst['distinct'], transitions=mcst['generated'], traces_validated_against_impl=nexec,
         samples=[dict(suite=s, case=ls) for (_, _p, s, ls) in (g.cases[:1] + g.cases[-1:])],
         model_action_coverage=mcst['action_cov'], calls_and_inputs_validated=nops, trace_states=states,
-        cases_per_suite=bysuite, inputs_in_latitude_cells=either, crashes=len(crashes),
+        cases_per_suite=bysuite, websocket_write_side_sessions=nws, inputs_in_latitude_cells=either, crashes=len(crashes),
         rejected_for_this_property=len(viol), rejected_tagged_for_other_properties=[dict(case=n['case'], why=n['why']) for n in notes[:30]],
         exhaustive=False,
         rule='MC_Pdu: all builder/editor call sequences over a boundary alphabet, Dec(Enc(m))=m for all three framings in every '
